@@ -136,10 +136,17 @@ class BytesRef(StrRef):
 class MapVal:
     """HashMap / HashSet as an association list (keys compared structurally)."""
 
-    __slots__ = ("entries",)
+    __slots__ = ("entries", "idx", "idx_sym", "idx_n")
 
     def __init__(self, entries=()):
         self.entries = [list(e) for e in entries]
+        self.idx = None      # fingerprint of a concrete key -> entry index (built lazily by summaries.map_find)
+        self.idx_sym = None  # indices of entries whose key is not concrete
+        self.idx_n = 0       # entries indexed so far (appends are indexed incrementally)
+
+    def touched(self):
+        """call after any removal / reordering / key overwrite"""
+        self.idx = None
 
 
 class FnVal:
@@ -967,6 +974,8 @@ class Machine:
         t = type(v)
         if t is tuple and v and v[0] == "mapslot":
             v[1].entries[i][v[2]] = val
+            if v[2] == 0:
+                v[1].touched()
         elif t is Agg:
             if i >= len(v.f):
                 v.f.extend([None] * (i + 1 - len(v.f)))
